@@ -487,6 +487,74 @@ pub fn run(tier: Tier) -> RunOutcome {
             )),
         }
     }
+    // (2b) second generation: load, save again, load again - the data may not drift
+    {
+        let mut f = File::open(&path).expect("open");
+        if let LoadOutcome::Ok(s2) = load_file(&mut f, None) {
+            let p2 = work_file("second_generation.json");
+            let r = {
+                let mut g = File::create(&p2).expect("create");
+                s2.save_to_file(&mut g)
+            };
+            probe("c19_second_generation_saves");
+            match r {
+                Err(e) => out.violations.push(Violation::new(
+                    "C19.save_failed",
+                    format!("saving the loaded solver failed: {}", e),
+                )),
+                Ok(()) => {
+                    let bytes2 = std::fs::read(&p2).unwrap_or_default();
+                    match serde_json::from_slice::<Value>(&bytes2) {
+                        Err(e) => out.violations.push(Violation::new(
+                            "C19.saved_file_not_json",
+                            format!("second-generation file is not valid JSON: {}", e),
+                        )),
+                        Ok(doc2) => {
+                            // the loaded solver re-applies presolve/equilibration per the stored settings;
+                            // without reductions in either generation the data must agree to rounding
+                            let reduced_again = !s2.is_data_update_allowed();
+                            if !reduced_again {
+                                let tol = if saved_settings.equilibrate_enable || equil { 128 } else { 0 };
+                                for key in ["q", "b"] {
+                                    if let (Some(a), Some(b)) = (vec_from_json(&doc[key]), vec_from_json(&doc2[key])) {
+                                        if let Some(d) = close_vec(&b, &a, tol) {
+                                            out.violations.push(Violation::new(
+                                                "C19.second_generation_drifts",
+                                                format!("{} after load+save differs from the first file: {}", key, d),
+                                            ));
+                                        }
+                                    }
+                                }
+                                for key in ["P", "A"] {
+                                    if let (Some(a), Some(b)) = (mat_from_json(&doc[key]), mat_from_json(&doc2[key])) {
+                                        if a.colptr != b.colptr || a.rowval != b.rowval {
+                                            out.violations.push(Violation::new(
+                                                "C19.second_generation_drifts",
+                                                format!("pattern of {} changed after load+save", key),
+                                            ));
+                                        } else if let Some(d) = close_vec(&b.nzval, &a.nzval, tol) {
+                                            out.violations.push(Violation::new(
+                                                "C19.second_generation_drifts",
+                                                format!("{} after load+save differs from the first file: {}", key, d),
+                                            ));
+                                        }
+                                    }
+                                }
+                                if doc["cones"] != doc2["cones"] || doc["settings"] != doc2["settings"] {
+                                    out.violations.push(Violation::new(
+                                        "C19.second_generation_drifts",
+                                        "cones or settings changed after load+save".to_string(),
+                                    ));
+                                }
+                            }
+                        }
+                    }
+                }
+            }
+            std::fs::remove_file(&p2).ok();
+        }
+    }
+
     // (3) a settings argument overrides the stored one
     {
         let mut other = with_sim(|s| gen_settings(&mut s.cs, false));
